@@ -88,10 +88,18 @@ def maxUsage : Dy := round53 Gen.maxUsageNum Gen.maxUsageDen 0
 
 end F64
 
+/-- the moves to go the plan divides by: the number told if it is positive, else GAME_LENGTH
+    (fix e30d5a0: `movestogo 0` is read as "not told") -/
+def GameTime.mtg (gt : GameTime) : Nat :=
+  match gt.movestogo with
+  | some m => if m = 0 then Gen.gameLength else m
+  | none => Gen.gameLength
+
 open F64 in
-/-- `GameTime::calculate_time_slice` (after the fix: the increment branch is capped by the clock) -/
+/-- `GameTime::calculate_time_slice` (after the fixes: the increment branch is capped by the clock;
+    `movestogo 0` counts as not told) -/
 def calculateTimeSlice (gt : GameTime) (color : Color) : Nat :=
-  let mtgN := gt.movestogo.getD Gen.gameLength
+  let mtgN := gt.mtg
   let clockI := match color with | .white => gt.wtime | .black => gt.btime
   let incI := match color with | .white => gt.winc | .black => gt.binc
   let clock := ofInt clockI
